@@ -92,6 +92,9 @@ def run(tier):
     blocks = gen.blocks(sd * 5 + 40, 200 if tier == "quick" else 3000) + ["PUSH1 0x0 PUSH1 0x0 ADD DUP1", "PUSH1 0x5 PUSH1 0x5 SUB", "DUP1 DUP1 XOR",
                                                                           "PUSH1 0x0 DUP2 MSTORE PUSH1 0x0 DUP1 SSTORE"]
     blocks += gen.access_pair_corpus()[::5]      # warm/cold books: storage slots and accounts on the same operand
+    # the same slot reached through a zero push that is kept and one that is rebuilt (the key of the warm/cold book is the pushed value)
+    blocks += ["PUSH0 SLOAD PUSH1 0x05 PUSH1 0x05 SUB POP GAS POP PUSH0 SLOAD", "PUSH1 0x00 SLOAD PUSH1 0x01 PUSH1 0x00 ADD POP GAS POP PUSH1 0x00 SLOAD",
+               "PUSH0 SLOAD POP PUSH1 0x03 PUSH1 0x03 SUB SLOAD", "PUSH1 0x07 PUSH0 SSTORE GAS POP PUSH1 0x00 PUSH1 0x00 ADD SLOAD"]
     # every spelling of a zero push, kept (nothing to optimize around it) and next to something that is optimized
     for z in ("PUSH1 0x0", "PUSH1 0x00", "PUSH1 0", "PUSH1 00", "PUSH2 0x0000", "PUSH32 0x" + "0" * 64, "PUSH0"):
         blocks += ["%s CALLDATALOAD %s SLOAD" % (z, z), "%s DUP2 MSTORE PUSH1 0x1 PUSH1 0x2 ADD" % z, "%s %s SUB %s" % (z, z, z)]
